@@ -2,6 +2,8 @@
 //
 // The legs that run in the NORMAL tiers (member names with equal FNV-32a, Unicode / byte-pattern classes of names) are in
 // legs3.go.
+// Fourth wave, also NORMAL tiers: the empty member name, members whose own replicas collide, members colliding with
+// replicas of "" (constructed by inverting FNV-1a) are in legs4.go.
 //
 // The normal tiers keep rings of at most 60 members and look every key up after (almost) every change. The legs:
 //
